@@ -53,7 +53,12 @@ def _call_with_timeout(func: Callable[[], T], timeout_s: float) -> T:
     executor = ThreadPoolExecutor(max_workers=1)
     future = executor.submit(func)
     try:
-        return future.result(timeout=timeout_s)
+        result = future.result(timeout=timeout_s)
+        raised = future.exception()
+        if raised is not None:
+            # Future.result() tests the stored exception for truth; a falsy one must still propagate.
+            raise raised
+        return result
     except FutureTimeoutError as exc:
         if future.done() and not future.cancelled() and future.exception() is exc:
             # The operation itself raised TimeoutError; surface it unchanged.
